@@ -509,6 +509,11 @@ pub fn eval_unit_name(
                 }
                 let right = right.value.to_f64();
                 let (left_unit, left_value) = eval_unit_name(ctx, &binop.left)?;
+                if (right as i32) < 0
+                    && (left_value == Numeric::zero() || left_value == Numeric::Float(0.0))
+                {
+                    return Err(QueryError::generic("Division by zero".to_string()));
+                }
                 Ok((
                     left_unit
                         .into_iter()
